@@ -81,6 +81,9 @@ type simNode struct {
 	// what this node's FSM durably holds, as far as the environment can tell:
 	// number of events after the last successful apply / restore
 	emitted []*protocol.Snapshot // snapshots pushed to the sender channel (C17 hand-off)
+	// seqAfter: number of events held -> the store's WAL sequence number right
+	// after the apply that reached it (only for applies done on this node)
+	seqAfter map[uint64]uint64
 }
 
 type committedEntry struct {
@@ -515,7 +518,7 @@ func (e *Env) replicate(f *simNode, k int, installFault string, installK int) st
 	if prevIdx > 0 {
 		li, lt := f.lastEntry()
 		var pt uint64
-		if prevIdx == li {
+		if prevIdx == li && prevIdx != f.lastSnapIdx {
 			pt = lt
 		} else if prevIdx == f.lastSnapIdx {
 			// Deviation from raft v1.1.1, which only consults the snapshot when it
